@@ -656,7 +656,8 @@ package p9
 // pool; Tversion is not pipelined with other requests).
 //@ func (*tread).handle
 //@   use handlerBase dirOpRows localLocks
-//@   at (*sync.Pool).Get assume typeis(ret0, *[]byte) && unbox(ret0, *[]byte) != nil && len(*unbox(ret0, *[]byte)) == int(cs.messageSize)
+//@   at (*sync.Pool).Get assume typeis(ret0, *[]byte) && unbox(ret0, *[]byte) != nil && len(*unbox(ret0, *[]byte)) == int(cs.messageSize) && gm("$pooled", arr(*unbox(ret0, *[]byte))) == 0
+//@   ensures[C18] @reply-buffer-not-back-in-pool typeis(result, *rreadServerPayloader) ==> gm("$pooled", arr(unbox(result, *rreadServerPayloader).fullBuffer)) == 0
 //@   requires[C13] @msize-admits-a-reply-frame 11 <= cs.messageSize && cs.messageSize <= maximumLength
 //@   ensures[C06] @reply-type typeis(result, *rreadServerPayloader) || typeis(result, *rlerror)
 //@   ensures[C04] @unbound-fid-ebadf !old(has(cs.fids, t.fid)) ==> isErr(result, linux.EBADF) && nocalls()
@@ -964,7 +965,7 @@ package p9
 //@ interface payloader.SetPayload
 //@   modifies implsof(payloader)
 //@ interface payloader.PayloadCleanup
-//@   modifies arrays(byte), implsof(payloader)
+//@   modifies arrays(byte), implsof(payloader), $gm.pooled
 
 //@ constglobal ErrNoValidMessage = nonnil [C02,C06]
 
@@ -993,7 +994,7 @@ package p9
 // one WriteTo.
 //@ func send
 //@   use transportFrame
-//@   modifies $written, $ncalls, $n.*, arrays(error), arrays([]byte), type:ConnError
+//@   modifies $written, $ncalls, $n.*, $gm.pooled, arrays(error), arrays([]byte), type:ConnError
 //@   at (*sync.Pool).Get assume typeis(ret0, *[]byte) && unbox(ret0, *[]byte) != nil
 //@   at (*buffer).Write32 requires[C01,C13] @size-field-is-the-frame-length arg0 == 7 + uint32(len(dataBuf.data)) + ite(implements(m, payloader), uint32(len(p)), 0)
 //@   at (*buffer).WriteTag requires[C01,C06] @tag-field arg0 == tag
@@ -1062,8 +1063,18 @@ package p9
 //@ declare dotted4(a string, b string, c string, d string) string
 //@ declare isDecimal32(d string) bool
 
+// the read-buffer pool: its New closure makes buffers of the negotiated size
+// (tread.handle relies on it: the Get assumption there is this postcondition
+// plus "everything put back is a whole buffer")
+//@ func (*tversion).handle$1
+//@   requires[C13] msize != nil
+//@   ensures[C13] @pool-buffer-has-msize-bytes typeis(result, *[]byte) && unbox(result, *[]byte) != nil && len(*unbox(result, *[]byte)) == int(*msize)
+//@   safety[C13]
+//@   nopanic
+
 //@ func (*tversion).handle
 //@   use handlerBase dirOpRows localLocks
+//@   at closure:(*tversion).handle$1 requires[C13] @pool-buffers-have-negotiated-size *msize == cs.messageSize
 //@   requires[C12] forall(n, uint32, googleVersion(n) != "9P2000.L" && googleVersion(n) != "9P2000.u" && googleVersion(n) != "9P2000")
 //@   ensures[C12,C06] @always-rversion typeis(result, *rversion)
 //@   ensures[C12] @zero-msize-unknown old(t.MSize) == 0 ==> unbox(result, *rversion).Version == "unknown" && unbox(result, *rversion).MSize == 0 && cs.messageSize == old(cs.messageSize) && cs.version == old(cs.version)
@@ -1849,7 +1860,7 @@ package p9
 //@   abstract
 //@   modifies implsof(message), arrays(byte), arrays(string), arrays(QID), arrays(Dirent), mapof(c.pending), type:response.r
 //@ func (*Client).sendRecv
-//@   modifies implsof(message), arrays(byte), arrays(string), arrays(QID), arrays(Dirent), arrays(error), arrays([]byte), arrays(uint64), mapof(c.pending), c.tagPool, type:response, type:buffer, type:ConnError, $lasterr, $got, $gotok, $wr, $rd, $ret.tag, $written, $ncalls, $n.*
+//@   modifies implsof(message), arrays(byte), arrays(string), arrays(QID), arrays(Dirent), arrays(error), arrays([]byte), arrays(uint64), mapof(c.pending), c.tagPool, type:response, type:buffer, type:ConnError, $lasterr, $got, $gotok, $wr, $rd, $ret.tag, $written, $ncalls, $n.*, $gm.pooled
 //@   requires[C10,C15,C16] nolocks()
 //@   ghost set $lasterr:error = result
 //@   at send requires[C10,C06] @frames-are-contiguous held(c.sendMu) == -1
